@@ -38,7 +38,12 @@ def parse_one(text, validate, comments, kind, fetch='text'):
     cp = _cp()
     fetchers = {'text': lambda u: (None, 'i { top: 1px } @import "j.css";'), 'none': lambda u: None,
                 'bytes': lambda u: ('utf-8', b'\xff\xfe i {'), 'weird': lambda u: (1, 2, 3), 'num': lambda u: 7,
-                'unknown-enc': lambda u: ('x-nope', b'a{}'), 'oserror': None}
+                'unknown-enc': lambda u: ('x-nope', b'a{}'), 'oserror': None,
+                # whatever a fetcher returns: other shapes, labels that are no text encoding, wrong types
+                'rot13': lambda u: ('rot13', b'a{}'), 'int-content': lambda u: (None, 123), 'list-content': lambda u: (None, ['a']),
+                'int-enc': lambda u: (123, b'a{}'), 'bytes-enc': lambda u: (b'utf-8', b'a{}'), 'bool-enc': lambda u: (True, b'a{}'),
+                'float-content': lambda u: ('utf-8', 5.5), 'tuple-enc': lambda u: ((1, 2), b'a{}'), 'triple': lambda u: (None, 'a{}', 1),
+                'bytearray': lambda u: (None, bytearray(b'i{top:0}')), 'dict': lambda u: {'a': 1}, 'str': lambda u: 'a{}'}
 
     def oserr(u):
         raise OSError('x')
@@ -102,7 +107,7 @@ ESCAPES = ['\\110000', '\\ffffff', '\\FFFFFF ', '\\0', '\\000000', '\\0 ', '\\d8
            '\\23 ', '\\#', '\\5b ', '\\5d ', '\\40 ', '\\21 ', '\\2f ', '\\22 ', '\\27 ', '\\5c ', '\\20 ', '\\3d ', '\\25 ']
 
 # constructs nested in themselves: (before, opening, closing, after)
-NESTED = [('a{x:', 'f(', ')', '}'), ('a{x:', 'f(1,', ')', '}'), ('a{x:', 'f(g(', '))', '}'), ('a{x:', 'calc(', ')', '}'),
+NESTED = [('a{x:', 'var(x, ', ')', '}'), ('a{x:', 'var(x, f(', '))', '}'), ('a{x:', 'f(', ')', '}'), ('a{x:', 'f(1,', ')', '}'), ('a{x:', 'f(g(', '))', '}'), ('a{x:', 'calc(', ')', '}'),
           ('a{x:', 'rgb(', ')', '}'), ('a{x:', 'var(', ')', '}'), ('a{x:', '(', ')', '}'), ('a{x:', '[', ']', '}'), ('a{x:', '{', '}', '}'),
           ('a{x:', '-f(', ')', '}'), ('a{x:expression(', '(', ')', ')}'), ('a{x:alpha(', 'f(', ')', ')}'), ('', 'a:not(', ')', '{}'),
           ('', 'a:nth-child(', ')', '{}'), ('', 'a[', ']', '{}'), ('', '(', ')', '{}'), ('@media ', '(', ')', '{}'),
@@ -111,7 +116,9 @@ NESTED = [('a{x:', 'f(', ')', '}'), ('a{x:', 'f(1,', ')', '}'), ('a{x:', 'f(g(',
           ('', '{', '}', ''), ('', '[', ']', ''), ('a{x:url(', 'url(', ')', ')}')]
 
 # long flat runs: (before, item, after)
-LONG = [('a{x:', 'b ', '}'), ('a{x:', 'b,', 'c}'), ('a{x:', '1px ', '}'), ('a{x:', 'b/', 'c}'), ('a{x:f(', 'b ', ')}'), ('a{x:f(', 'b,', 'c)}'),
+LONG = [('a{x:', '9', '.5}'), ('a{x:-', '9', '.5px}'), ('a{x:', '9', '}'), ('a{x:.', '0', '1em}'), ('a{color:hsl(', '9', ',50%,50%)}'),
+        ('a{color:hsl(1,', '9', '.5%,50%)}'), ('a{color:rgb(', '9', '.5,1,1)}'), ('a{color:rgba(1,1,1,', '9', '.5)}'),
+        ('a{x:', 'b ', '}'), ('a{x:', 'b,', 'c}'), ('a{x:', '1px ', '}'), ('a{x:', 'b/', 'c}'), ('a{x:f(', 'b ', ')}'), ('a{x:f(', 'b,', 'c)}'),
         ('a{x:', 'rgb(1,2,3) ', '}'), ('a{x:', 'calc(1px) ', '}'), ('a{x:calc(1px', ' + 1px', ')}'), ('a{x:', '"s" ', '}'),
         ('a{x:', 'url(u) ', '}'), ('a{x:', '#fff ', '}'), ('', 'a,', 'b{}'), ('', 'a ', '{}'), ('', 'a>', 'b{}'), ('a', '.b', '{}'),
         ('a', '[b]', '{}'), ('a', ':hover', '{}'), ('a', ':not(b)', '{}'), ('a{', 'b:c;', '}'), ('a{', ';', '}'), ('a{', 'b:c!important;', '}'),
@@ -141,7 +148,9 @@ def gen_cases(tier, seed):
 
     def settings():
         return (rnd.random() < 0.5, rnd.random() < 0.5, 'sheet' if rnd.random() < 0.7 else 'style',
-                rnd.choice(['text', 'text', 'none', 'bytes', 'weird', 'num', 'unknown-enc', 'oserror']))
+                rnd.choice(['text', 'text', 'none', 'bytes', 'weird', 'num', 'unknown-enc', 'oserror', 'rot13', 'int-content',
+                            'list-content', 'int-enc', 'bytes-enc', 'bool-enc', 'float-content', 'tuple-enc', 'triple', 'bytearray',
+                            'dict', 'str']))
     for _ in range(n):
         cases.append(('soup', lexgen.soup(rnd, rnd.randint(1, 30))) + settings())
     for _ in range(n):
@@ -193,6 +202,14 @@ def gen_cases(tier, seed):
     for nm in names:
         cases.append(('charset', '@charset "%s"; a{content:"\xe9\u4e2d"}' % nm.replace('_', rnd.choice('_-')), rnd.random() < 0.5, True,
                       'sheet', 'text'))
+    # every @import whose fetcher answer has an odd shape, and hrefs the URL library refuses
+    for f in sorted(set(['rot13', 'int-content', 'list-content', 'int-enc', 'bytes-enc', 'bool-enc', 'float-content', 'tuple-enc', 'triple',
+                         'bytearray', 'dict', 'str'])):
+        cases.append(('fetch', '@import "x.css"; a{top:0}', True, True, 'sheet', f))
+    for t in ['@import "http://[a";', '@import url(//[);', '@import "http://a]b/";', '@import "http://[::1";', '@import "http://h:x/";',
+              '@import "\0";', '@variables { /*c*/ a: 1; a: 2 }', '@variables { a: 1; /*c*/ a: 2; /*d*/ a: 3 } b{x:var(a)}']:
+        cases.append(('fixed', t, True, True, 'sheet', 'text'))
+        cases.append(('fixed', t, False, False, 'sheet', 'none'))
     byt = [('bytes', b) for b in [b'\xff\xfe', b'\xef\xbb\xbf@charset "', b'@charset "x', b'@charset "utf-16";a', b'\x00\x00\xfe\xff',
                                   b'a{content:"\xff"}', b'@charset "ascii";\xe9', b'\xff' * 10, b'@charset "";']]
     for k, b in byt:
